@@ -87,6 +87,7 @@ MCReqs == { <<"a", "com">> }
 MCInit == Init /\ set = <<>>
 \* one named disjunct per action of the module, so that TLC's coverage is reported per action
 ALoadGood     == (\E s \in Good : LoadGood(s)) /\ UNCHANGED set
+ALoadRenamed  == (\E s \in Good : LoadRenamed(s)) /\ UNCHANGED set
 ALoadSame     == LoadSame /\ UNCHANGED set
 ALoadUnusable == (\E u \in Unusable : LoadUnusable(u)) /\ UNCHANGED set
 ALoadError    == (\E e \in Failing : LoadError(e)) /\ UNCHANGED set
@@ -96,7 +97,7 @@ ASleep        == Sleep /\ UNCHANGED set
 AHsInv        == (\E c \in Clients : \E r \in Reqs : HsInv(c, r)) /\ UNCHANGED set
 AHsLoad       == (\E c \in Clients : HsLoad(c)) /\ UNCHANGED set
 AHsSelect     == (\E c \in Clients : HsSelect(c)) /\ UNCHANGED set
-MCNext == ALoadGood \/ ALoadSame \/ ALoadUnusable \/ ALoadError \/ APublish \/ APublish2 \/ ASleep
+MCNext == ALoadGood \/ ALoadRenamed \/ ALoadSame \/ ALoadUnusable \/ ALoadError \/ APublish \/ APublish2 \/ ASleep
           \/ AHsInv \/ AHsLoad \/ AHsSelect
 MCSpec == MCInit /\ [][MCNext]_<<vars, set>>
 \* hist and the time stamps are ghosts of the generator; the MC run abstracts them away
@@ -126,7 +127,11 @@ SrcB == << SC(<<"x", "com">>, <<>>, "1", "pair", "B1"),
            SC(<<>>, << <<"*", "com">> >>, "2", "combined", "B2"),
            SC(<<"a", "com">>, <<>>, "3", "pair", "B3"),
            SC(<<"b", "a", "com">>, <<>>, "9", "pair", "B9") >>
-SrcSetOf(c) == CASE c = "A" -> SrcA [] c = "As" -> SrcAs [] c = "B" -> SrcB [] OTHER -> <<>>
+\* A with the file names of its first and last certificate exchanged (CertStore!Renamed): the same
+\* seven files, the same PEM blocks; x.com is now first = the default, a.com last
+SrcAr == << SC(SrcA[4].cn, SrcA[4].sans, "1", "pair", "A9"), SrcA[2], SrcA[3],
+            SC(SrcA[1].cn, SrcA[1].sans, "9", "pair", "A1") >>
+SrcSetOf(c) == CASE c = "A" -> SrcA [] c = "As" -> SrcAs [] c = "Ar" -> SrcAr [] c = "B" -> SrcB [] OTHER -> <<>>
 SrcSNISeq == << <<>>, <<"a", "com">>, <<"A", "COM", "">>, <<"b", "a", "com">>, <<"c", "a", "com">>,
                 <<"x", "com">>, <<"q", "net">> >>
 
